@@ -246,9 +246,14 @@ func init() {
 			nBad := int64(2000)
 			nNF := int64(len(c10NonFinite) * len(c10NonFiniteDocs))
 			nNV := int64(len(c10NoValue))
-			return &fw.Plan{N: nSweep + nRand + nBad + nNF + nNV,
-				Subspaces: []string{fmt.Sprintf("all %d (built-in, arity<=3, argument-kind tuple) combinations", nSweep), fmt.Sprintf("%d arithmetic programs whose mathematical result is not a finite number", nNF), fmt.Sprintf("%d programs that denote no value", nNV)},
+			nHV := int64(len(c10HasValue))
+			return &fw.Plan{N: nSweep + nRand + nBad + nNF + nNV + nHV,
+				Subspaces: []string{fmt.Sprintf("all %d (built-in, arity<=3, argument-kind tuple) combinations", nSweep), fmt.Sprintf("%d arithmetic programs whose mathematical result is not a finite number", nNF), fmt.Sprintf("%d programs that denote no value", nNV), fmt.Sprintf("%d programs that denote a value although a sub-expression denotes none", nHV)},
 				Run: func(i int64, r *fw.Rec) {
+					if i >= nSweep+nRand+nBad+nNF+nNV {
+						c10HasValueProbe(r, c10HasValue[i-nSweep-nRand-nBad-nNF-nNV])
+						return
+					}
 					if i >= nSweep+nRand+nBad+nNF {
 						c10NoValueProbe(r, c10NoValue[i-nSweep-nRand-nBad-nNF])
 						return
